@@ -191,4 +191,23 @@ theorem rhsSteps_pres {cx : Ctx} {P : Acc → Prop} :
     exact rhsSteps_pres (as := as) (res := r2) (fun b hb => hc b (by simp [hb]))
       (assignStep_pres (hc a (by simp)) hs h1) h2
 
+/-- the two ways a rule is processed, after its name passed `ruleCheck` -/
+theorem ruleStep_ok {cx : Ctx} {rule : Rule} {st st' : XSt} (h : ruleStep cx rule st = .ok st') :
+    (∃ nt, findNt st.nts rule.name = some nt ∧ altSteps cx rule nt.idx 0 rule.alts st = .ok st') ∨
+    (findNt st.nts rule.name = none ∧
+      altSteps cx rule st.nextNt 0 rule.alts { st with nextNt := st.nextNt + 1 } = .ok st') := by
+  unfold ruleStep at h
+  obtain ⟨_, _, h⟩ := Outcome.bind_eq_ok.mp h
+  split at h
+  · rename_i nt hf
+    exact Or.inl ⟨nt, hf, h⟩
+  · rename_i hf
+    exact Or.inr ⟨hf, h⟩
+
+theorem ruleStep_checked {cx : Ctx} {rule : Rule} {st st' : XSt} (h : ruleStep cx rule st = .ok st') :
+    ruleCheck cx rule = .ok () := by
+  unfold ruleStep at h
+  obtain ⟨u, hu, _⟩ := Outcome.bind_eq_ok.mp h
+  exact hu
+
 end Rustemo.Front
